@@ -62,7 +62,6 @@ Definition supd (k : string) (d d0 : t2d) : t2d :=
   else d0.
 
 (** what section k of [d] must satisfy for the reader in state [d0] *)
-Definition is_ok {A} (r : res A) : bool := match r with Ok _ => true | Raise _ => false end.
 Definition secwf (k : string) (d d0 : t2d) : bool :=
   if k =? "SIMUL" then
     nonempty (strip (simulator d)) && no_nl (strip (simulator d)) && (length (strip (simulator d)) <=? rec_width T0 "simulator")%nat
